@@ -178,6 +178,19 @@ def rule_skeleton(ctx, rep):
                 back = f.reach([st], fresh, avoid=lambda i: i in retire or i.op == "ret", include_start=True)[0]
                 rep.check(back is None, "C12.skeleton", f.name + ".winner-delivers", "the winner of the head cmpxchg returns the node or retires the dummy before trying again",
                           "after a *successful* head cmpxchg dequeue goes round again without returning the node or retiring the dummy: the node it unlinked is lost", [c.where()])
+    # one snapshot of q->head per attempt: the successor examined (and the emptiness verdict built on it) belongs to the very head value the
+    # cmpxchg later expects - a second load of q->head pairs one node's dummy flag with another node's next, and `empty` is reported for a
+    # queue that was never empty during the call
+    for lib, f in copies(ctx, "_cds_lfq_dequeue_rcu"):
+        if lib != "cds":
+            continue
+        hx = [e for e in pat.accesses(f, HEAD, ("cmpxchg",))]
+        if len(hx) != 1:
+            continue
+        exp = ir.strip_casts(f, hx[0].exp, int_too=True)
+        hl = pat.loads(f, HEAD)
+        rep.check(len(hl) == 1 and exp == ["i", hl[0].id], "C12.skeleton", f.name + ".one-head-snapshot", "q->head is loaded once per attempt and that value is what the cmpxchg expects",
+                  "q->head is loaded %d times in an attempt (cmpxchg expects %s): dummy flag, successor and emptiness verdict can come from different nodes" % (len(hl), exp), [l.where() for l in hl[1:2]] or [f.name])
     for g in m.by_src("make_dummy"):
         rep.touch(g)
         for s_ in g.all_insts():
